@@ -70,6 +70,7 @@ func TestCheck(t *testing.T) {
 		"L2: seeded op sequences against real Backoff instances (logical: interval/period/duration 1h so verdicts do not depend on timing; key masks for every prefix length; " +
 		"timed: window slide-out, counter-entry expiry, back-off entry/exit) judged by interval arithmetic over wall-clock stamps taken before/after each call. " +
 		"L3: agd.DefaultRatelimiter and the full middleware via dnssvc.NewHandlers. " +
+		"L4: the built program started with backoff_period != backoff_duration in its YAML (both orders), plain-DNS UDP queries from three loopback /24s each, same model and interval arithmetic. " +
 		"distinct = (layer, family, normalised configuration/sequence); non-trivial = the case contains at least one decided must-drop and one decided must-pass observation " +
 		"(L1: one above step and one not-above step after an earlier above or with an earlier event outside the window)")
 	r.Assume("every arrival that reaches the window (also one that is itself dropped by the window) is a countable event, as in the design's log model")
@@ -77,11 +78,14 @@ func TestCheck(t *testing.T) {
 	r.Assume("queries of allow-listed clients, refused ANY queries and queries dropped while in back-off may or may not count towards the subnet's window (unspecified)")
 	r.Assume("a subnet can be in back-off only if `count` of its over-limit events (counting everything that may have been one) can lie within one window of max(period, duration)")
 	r.Assume("back-off is certain only while less than `duration` has passed since the first over-limit event and all `count` events fell within `period`; " +
-		"it is certainly over once `duration`+`period` have passed since the last over-limit event")
+		"it is certainly over once `duration` has passed since the last event that may have been over the limit")
+	r.Assume("layer 4: 'configured' means the YAML the program was started with; a query without an answer counts as dropped only when the program's dropped_total counter went up by one")
 	r.Assume("every unit of a large response is an event of the subnet's window; a unit that is certainly beyond the limit (and not swallowed by a back-off) is an over-limit event for the back-off count")
 	r.Assume("the events of a response happen when the response is counted (after the handler), not when its request was received; contexts carry dnsserver.RequestInfo.StartTime as on a real server")
 	r.Assume("a response of wire length S counts floor(S/estimate)..ceil(S/estimate) extra events when S >= estimate and none when S < estimate")
 	r.Assume("timestamps are after 1970 (RequestCounter treats UnixNano()<=0 as an empty slot)")
+
+	waitBinary := layer4Binary(r) // runs beside the other layers
 
 	layer1Exhaustive(r)
 	layer1Random(r)
@@ -100,6 +104,7 @@ func TestCheck(t *testing.T) {
 	layer3Profile(r)
 	layer3Stack(r)
 	layer3StackSlow(r)
+	waitBinary()
 
 	r.Require("l1_adds", 100000)
 	r.Require("l1_steps_above", 10000)
@@ -125,6 +130,8 @@ func TestCheck(t *testing.T) {
 	r.Require("l2_large_resp_window_drop", 6)
 	r.Require("l2_slow_handler_window_drop", 8)
 	r.Require("l3_stack_slow_handler_dropped", 4)
+	r.Require("l4_binary_in_backoff_after_period", 2)
+	r.Require("l4_binary_served_after_duration", 4)
 	r.Require("l3_profile_decided", 20)
 	r.Require("l1_steps_limit_zero", 10000)
 	r.Require("l3_profile_rps0_drop", 6)
@@ -561,6 +568,8 @@ type bmon struct {
 	lastCtx        context.Context
 	lastStart      int64
 	respWithReqCtx bool
+	// keyPrefix is put in front of every violation key of this monitor.
+	keyPrefix string
 }
 
 func newMon(r *vkit.Run, fam string, idx int, c bcfg) *bmon {
@@ -712,6 +721,14 @@ func (ks *keyModel) backoff(b, a int64, c bcfg) (certain, possible bool, recent 
 			}
 		}
 		ks.spreadOnly = !possible
+		// Back-off is entered at an over-limit event and lasts `duration`
+		// (BackoffConfig.Duration: "how much a client that has hit the backoff
+		// count stays in the backoff state"): once `duration` has passed since
+		// the last event that may have been over the limit, the subnet cannot be
+		// in back-off.
+		if possible && b-kept[recent-1].A > int64(c.Duration)+eps {
+			possible = false
+		}
 	}
 	sure := uint(0)
 	for _, h := range kept {
@@ -1001,7 +1018,7 @@ func (m *bmon) finish(class string) {
 		for k, v := range p.extra {
 			w[k] = v
 		}
-		m.r.Violation(p.key, p.what, w)
+		m.r.Violation(m.keyPrefix+p.key, p.what, w)
 	}
 	m.r.Eval(class, m.nDrop > 0 && m.nPass > 0)
 }
